@@ -22,6 +22,8 @@
  *   ack:<p> rst:<p>   ACK / RST for the oldest unanswered CON the server sent to p
  *   ref:<p> rel:<p>   the driver takes / drops an application reference on p's session
  *   relall            the driver drops every application reference it holds
+ *   evref:<n>         from now on the SESSION_NEW event handler takes an application reference
+ *                     on the sessions of peers p with p % n == 0 (0 = off)
  *   adv:<ms>          virtual time advances
  *   prep              coap_io_prepare_epoll (timers, idle scan)
  *   notify:<0|1>      coap_resource_notify_observers on /o (0) or /oc (1)
@@ -198,9 +200,19 @@ static void on_send(size_t idx) {
 }
 
 /* ------------------------------------------------------------------ application callbacks */
+static int evref_mod = 0;   /* > 0: the SESSION_NEW handler keeps sessions of peers p % mod == 0 */
 static int on_event(coap_session_t *s, const coap_event_t ev) {
-  if (ev == COAP_EVENT_SERVER_SESSION_NEW)
-    emit("N:%d:%ld", checked_sid(s, "event_new"), key_of_addr(&s->addr_info.remote));
+  if (ev == COAP_EVENT_SERVER_SESSION_NEW) {
+    long p = key_of_addr(&s->addr_info.remote);
+    int sid = checked_sid(s, "event_new");
+    emit("N:%d:%ld", sid, p);
+    if (evref_mod > 0 && sid && p >= 0 && p < MAXP && p % evref_mod == 0) {
+      emit("+:%d:1", sid);
+      coap_session_reference(s);
+      app_refs[p]++;
+      app_sess[p] = s;
+    }
+  }
   else if (ev == COAP_EVENT_SERVER_SESSION_DEL)
     emit("D:%d", checked_sid(s, "event_del"));
   return 0;
@@ -435,6 +447,7 @@ static void run_history(void) {
   vn_on_send = on_send;
   nsess = 0;
   n_uaf_marks = 0;
+  evref_mod = 0;
   memset(app_refs, 0, sizeof(app_refs));
   memset(app_sess, 0, sizeof(app_sess));
   memset(peer_mid, 0, sizeof(peer_mid));
@@ -523,6 +536,8 @@ static void run_history(void) {
       }
     } else if (!strcmp(op, "relall")) {
       drop_app_refs();
+    } else if (!strncmp(op, "evref:", 6)) {
+      evref_mod = atoi(op + 6);
     } else if (!strncmp(op, "adv:", 4)) {
       vn_advance((coap_tick_t)strtoull(op + 4, NULL, 10));
     } else if (!strcmp(op, "prep")) {
